@@ -365,6 +365,10 @@ def run_jobs(ws, features, jobs, workers=None, progress=True, need_playback=None
             job._full = full[job.name]
         if job.name in mds:
             r = run_job_direct(ws, job, mds[job.name])
+            if r is not None and r.status == "error" and "out of memory" in r.note:
+                # memory pressure from the neighbours: one more attempt (the pool is usually emptier by now)
+                time.sleep(5)
+                r = run_job_direct(ws, job, mds[job.name])
             if r is not None:
                 return r
         return run_job(ws, features, job)
